@@ -1,0 +1,16 @@
+//go:build verif
+
+package casket
+
+import "sync"
+
+// VerifC11Load runs the directive phase of Start and nothing else: the instance is built the
+// way Start builds it and ValidateAndExecuteDirectives is called with justValidate=false
+// (setup functions and parsing callbacks run; no servers are made, nothing listens, no
+// startup callbacks run). It is what "-validate" must agree with. The caller runs
+// inst.ShutdownCallbacks() afterwards. (verification build only; no behaviour change)
+func VerifC11Load(cdyfile Input) (*Instance, error) {
+	inst := &Instance{serverType: cdyfile.ServerType(), wg: new(sync.WaitGroup), Storage: make(map[interface{}]interface{})}
+	err := ValidateAndExecuteDirectives(cdyfile, inst, false)
+	return inst, err
+}
